@@ -251,6 +251,7 @@ func genCase(r *core.Rand, conc bool) []string {
 		}
 	}
 	if conc {
+		ops = append(ops, fmt.Sprintf("ovl %d", r.U64()%1000000), "q")
 		ops = append(ops, fmt.Sprintf("conc %d %s", r.U64()%1000000, r.Pick("q", "q", "r")), "q")
 	} else {
 		ops = append(ops, "q", "r", "q")
